@@ -142,6 +142,78 @@ func ruleCLIReg(p *Prog, r *Report) {
 			r.Bad("R-CLI-REG", key, p.Pos(en.pos), "registry entry does not call runEcosystem(&P.Ecosystem{}, args) exactly once with its own args")
 		}
 	}
+	// direct dispatch: if args[0] == "<key>" { runVers(args[1:]) } / runEcosystem(&P.Ecosystem{}, args[1:])
+	// written without a table counts as a registry entry plus its dispatch
+	directDispatch := 0
+	for _, blk := range run.Blocks {
+		for _, ins := range blk.Instrs {
+			c, ok := ins.(*ssa.Call)
+			if !ok {
+				continue
+			}
+			cal := c.Call.StaticCallee()
+			if cal == nil {
+				continue
+			}
+			isV := cal == cmdFunc(p, "runVers")
+			isE := runEco != nil && (cal.Origin() == runEco || cal == runEco)
+			if !isV && !isE {
+				continue
+			}
+			guardKey, guarded := "", false
+			domEdges(blk, func(cond ssa.Value, tv bool) bool {
+				bo, ok := cond.(*ssa.BinOp)
+				if !ok || !(bo.Op == token.EQL && tv || bo.Op == token.NEQ && !tv) {
+					return false
+				}
+				x, y := bo.X, bo.Y
+				if _, isC := constString(x); isC {
+					x, y = y, x
+				}
+				if k, isC := constString(y); isC && isElemLoad(x, run.Params[1], 0) {
+					guardKey, guarded = k, true
+					return true
+				}
+				return false
+			})
+			if !guarded {
+				// a switch on args[0]
+				if k := switchConstAt(blk, run.Params[1]); k != "" {
+					guardKey, guarded = k, true
+				}
+			}
+			argsIdx := 0
+			if isE {
+				argsIdx = 1
+			}
+			key := "cmd.run: registry[" + guardKey + "]"
+			if !guarded || len(c.Call.Args) <= argsIdx || !isSliceFrom(c.Call.Args[argsIdx], run.Params[1], 1) {
+				r.Bad("R-CLI-REG", "cmd.run: direct call of "+cal.Name(), p.Pos(c.Pos()), "a runner is called directly without a dominating test args[0] == <constant> or not with args[1:]")
+				continue
+			}
+			if seenKey[guardKey] {
+				r.Bad("R-CLI-REG", key, p.Pos(c.Pos()), "duplicate registry key")
+				continue
+			}
+			seenKey[guardKey] = true
+			directDispatch++
+			switch {
+			case isV && guardKey == "vers":
+				r.Ok("R-CLI-REG", key, p.Pos(c.Pos()), "args[0] == \"vers\" routes to runVers")
+			case isV:
+				r.Bad("R-CLI-REG", key, p.Pos(c.Pos()), "runVers dispatched under a key other than 'vers'")
+			default:
+				ecoArg := ecoOfValue(p, c.Call.Args[0])
+				if ecoArg != nil && ecoArg.NameVal == guardKey {
+					r.Ok("R-CLI-REG", key, p.Pos(c.Pos()), "key equals the Name() constant of package "+ecoArg.Name+" whose Ecosystem is passed to runEcosystem")
+					registered[ecoArg] = guardKey
+				} else {
+					r.Bad("R-CLI-REG", key, p.Pos(c.Pos()), fmt.Sprintf("key %q dispatches to another ecosystem", guardKey))
+				}
+			}
+			r.Ok("R-CLI-REG", fmt.Sprintf("cmd.run: direct dispatch[%s]", guardKey), p.Pos(c.Pos()), "tests args[0] and calls the runner with args[1:]")
+		}
+	}
 	names := map[string]string{}
 	for _, e := range p.Ecos {
 		key := "ecosystem " + e.Name + " registered"
@@ -398,11 +470,15 @@ func switchConstAt(blk *ssa.BasicBlock, args ssa.Value) string {
 	out := ""
 	domEdges(blk, func(cond ssa.Value, tv bool) bool {
 		bo, ok := cond.(*ssa.BinOp)
-		if !ok || bo.Op != token.EQL || !tv {
+		if !ok || !(bo.Op == token.EQL && tv || bo.Op == token.NEQ && !tv) {
 			return false
 		}
-		k, ok := constString(bo.Y)
-		if !ok || !isElemLoad(bo.X, args, 0) {
+		x, y := bo.X, bo.Y
+		if _, isC := constString(x); isC {
+			x, y = y, x
+		}
+		k, ok := constString(y)
+		if !ok || !isElemLoad(x, args, 0) {
 			return false
 		}
 		out = k
@@ -515,6 +591,23 @@ func lineSafe(v ssa.Value, seen map[ssa.Value]bool, why *string) bool {
 				default:
 					*why = "verb " + vb + " can emit arbitrary text"
 					return false
+				}
+			}
+			return true
+		}
+		// a helper of the CLI package that returns a string: every value it returns must be line-safe
+		// (its parameters are not: a raw argument returned as it is stays unrecognised)
+		parent := x.Parent()
+		if o := parent.Origin(); o != nil {
+			parent = o
+		}
+		if f.Blocks != nil && f.Pkg != nil && parent.Pkg == f.Pkg && f.Signature.Results().Len() == 1 {
+			for _, b := range f.Blocks {
+				if ret, ok := b.Instrs[len(b.Instrs)-1].(*ssa.Return); ok {
+					if !lineSafe(ret.Results[0], seen, why) {
+						*why = "built by " + f.Name() + ": " + *why
+						return false
+					}
 				}
 			}
 			return true
